@@ -174,13 +174,26 @@ func newBaseDir() (string, error) {
 	if err != nil {
 		return "", err
 	}
-	yml := fmt.Sprintf("server:\n  name: verif\nstorage-path: %s\n", filepath.Join(d, "storage"))
+	// every second base directory names its store by a relative path (resolved against the base directory, like
+	// the default "storage"); the commands are run from some other working directory (dirkBin.run)
+	baseDirs++
+	sp := filepath.Join(d, "storage")
+	if baseDirs%2 == 0 {
+		sp = "storage"
+	}
+	yml := fmt.Sprintf("server:\n  name: verif\nstorage-path: %s\n", sp)
 	return d, os.WriteFile(filepath.Join(d, "dirk.yml"), []byte(yml), 0o600)
 }
+
+var baseDirs int
 
 func (d *dirkBin) run(base string, args ...string) (int, string) {
 	cmd := exec.Command(d.path, append([]string{"--base-dir", base}, args...)...)
 	cmd.Env = append(os.Environ(), "HOME="+base)
+	if cwd, cerr := os.MkdirTemp("", "vh-cwd-"); cerr == nil {
+		cmd.Dir = cwd // not the base directory: where the command is started from must not matter
+		defer os.RemoveAll(cwd)
+	}
 	out, err := cmd.CombinedOutput()
 	if err == nil {
 		return 0, string(out)
